@@ -58,6 +58,8 @@ func checkC12(c *Ctx) {
 	ruleClaimOnce(c, "C12.l")
 	c.rule("C12.m", "delivery of untagged data into a pending command does not depend on the mirrored connection state", 18)
 	ruleRoutingIndependentOfMirror(c, "C12.m")
+	c.rule("C12.n", "a synchronising literal refused by the server (tagged NO/BAD) does not tear the client down", 1)
+	ruleRefusalIsNotTeardown(c, "C12.n")
 }
 
 var mirrorTypes = map[string]bool{"SelectedMailbox": true, "SelectData": true, "UnilateralDataMailbox": true}
